@@ -163,6 +163,24 @@ func runStr(c strCase, r *pb.Rec) error {
 		want = string(keep)
 		r.ClassIf(hit, "rune removed")
 	}
+	// the result must not change when the same helper is called again with other input (no pooled buffers)
+	keep := strings.Clone(got)
+	other := "\u00e9" + s + "zz"
+	switch c.Fn {
+	case "sub":
+		strz.Sub(other, 1, 2)
+	case "mask":
+		strz.Mask(other, "#", 1, 1)
+	case "display":
+		strz.SubByDisplay(other, 3)
+	case "rev":
+		strz.Rev(other)
+	case "remove":
+		strz.RemoveRunes(other, func(x rune) bool { return x == 'z' })
+	}
+	if got != keep {
+		return fmt.Errorf("%s(%q, ...): the returned string changed from %q to %q after a later call", c.Fn, s, keep, got)
+	}
 	if valid {
 		if got != want {
 			return fmt.Errorf("%s(%q, mask=%q, %d, %d, set=%q) = %q want %q", c.Fn, s, c.Mask, c.A, c.B, string(c.Set), got, want)
